@@ -22,7 +22,6 @@ import keyword
 import os
 import re
 import sys
-import sysconfig
 import token as tokmod
 import tokenize
 import warnings
@@ -39,7 +38,9 @@ ASSUMPTIONS = ["source texts are modules the running interpreter (3.12) parses; 
                "are skipped", "f-string literal chunks and format-spec JoinedStr nodes are not constructs that "
                "can be parsed on their own: no region is demanded for them",
                "a generator expression that is the sole call argument shares the call's parentheses in the "
-               "interpreter's span; those two characters are not demanded from the region"]
+               "interpreter's span; those two characters are not demanded from the region",
+               "the interpreter's span of a compound statement takes in the ';' ending its last simple statement; "
+               "that separator is not demanded from the region"]
 BUDGET = {"quick": (4000, 75), "thorough": (200000, 840)}
 EXHAUSTIVE = {}
 REQUIRE = {"sources_checked": 300, "nodes_span_checked": 200000, "nodes_reparsed": 200000,
@@ -52,51 +53,19 @@ LEVEL_TEXT = ("Every source text of the workload is annotated by the real code; 
               "interpreter's span and by re-parsing the region text. Held = no judgement failed on the sources run; "
               "sampled over the space of programs and layouts.")
 LEVEL_NOTE = ("the oracle is the running interpreter: only 3.12 syntax; f-string literal chunks and format specs are "
-              "exempt from the region demand; an exception in the annotator hides the remaining clauses for that "
-              "source; a re-parse mismatch is reported at the lowest node only")
+              "exempt from the region demand; when the annotator raises, the source is cut into its top-level "
+              "statements / definition bodies (valid modules themselves) so that the failure is reported on the "
+              "smallest failing chunk and the other chunks are still judged; a region mismatch is reported at the "
+              "lowest node it can be blamed on")
 DESIGN_REF = "DESIGN.md section 5, C08"
 CASE_TIMEOUT = 300
 
 # --------------------------------------------------------------------------- corpus / fuzz providers
-try:  # shared helpers written concurrently; private fallbacks below are used while they do not exist
-    from vlib import corpus as _corpus
-except Exception:  # pragma: no cover
-    _corpus = None
-try:
-    from vlib import layoutfuzz as _layoutfuzz
-except Exception:  # pragma: no cover
-    _layoutfuzz = None
-
-
-def _list_py(root):
-    out = []
-    for dp, dns, fns in os.walk(root):
-        dns[:] = sorted(d for d in dns if d not in ("__pycache__", "site-packages", ".git"))
-        for fn in sorted(fns):
-            if fn.endswith(".py"):
-                out.append(os.path.join(dp, fn))
-    return out
-
-
-def _roots():
-    rope_root = core.ROPE_ROOT
-    return sysconfig.get_paths()["stdlib"], os.path.join(rope_root, "rope"), os.path.join(rope_root, "ropetest")
-
-
-def read_source(path):
-    """Text of a python file exactly as its bytes say (no newline translation); None if undecodable."""
-    with open(path, "rb") as f:
-        data = f.read()
-    try:
-        enc, _ = tokenize.detect_encoding(io.BytesIO(data).readline)
-        return data.decode(enc)
-    except (SyntaxError, UnicodeDecodeError, LookupError):
-        return None
+from vlib import astgen, corpus, layoutfuzz  # noqa: E402  (shared helpers; corpus roots do not follow ROPE_ROOT)
 
 
 # --------------------------------------------------------------------------- source index
 _NL = re.compile(r"\r\n|\r|\n")
-_ALLOWED_LEFT = {tokmod.COMMENT, tokmod.NL, tokmod.NEWLINE, tokmod.INDENT, tokmod.DEDENT}
 
 
 class Src:
@@ -229,7 +198,8 @@ def reparse(node, parent, field, text, prefix, fctx):
     if isinstance(node, ast.Starred):
         return _first(P("[" + text + "\n]"), "body", 0, "value", "elts", 0)
     if isinstance(node, ast.expr):
-        if isinstance(node, ast.Slice) or (isinstance(parent, ast.Subscript) and field == "slice"):
+        if isinstance(node, ast.Slice) or (isinstance(parent, ast.Subscript) and field == "slice" and isinstance(node, ast.Tuple)
+                                           and any(isinstance(x, (ast.Slice, ast.Starred)) for x in node.elts)):
             return _first(P("_[" + text + "\n]"), "body", 0, "value", "slice")
         return P("(" + text + "\n)", mode="eval").body
     if isinstance(node, ast.keyword):
@@ -249,9 +219,10 @@ def reparse(node, parent, field, text, prefix, fctx):
     if isinstance(node, ast.comprehension):
         return _first(P("[_ " + text + "\n]"), "body", 0, "value", "generators", 0)
     if isinstance(node, ast.ExceptHandler):
-        pre = prefix or ""
-        return _first(P("if 1:\n" + pre + " try:\n" + pre + "  pass\n" + pre + " " + text + "\n"),
-                      "body", 0, "body", 0, "handlers", 0)
+        if prefix:
+            return _first(P("if 1:\n" + prefix + "try:\n" + prefix + " pass\n" + prefix + text + "\n"),
+                          "body", 0, "body", 0, "handlers", 0)
+        return _first(P("try:\n pass\n" + text + "\n"), "body", 0, "handlers", 0)
     if isinstance(node, ast.match_case):
         pre = prefix or " "
         return _first(P("match _:\n" + pre + text + "\n"), "body", 0, "cases", 0)
@@ -271,7 +242,9 @@ def const_kind(node):
         return "Constant.name"
     if v is Ellipsis:
         return "Constant.ellipsis"
-    return "Constant." + type(v).__name__
+    if isinstance(v, (str, bytes)):
+        return "Constant.string"
+    return "Constant.number"
 
 
 def cls_name(node):
@@ -290,9 +263,8 @@ def _tok_class(s):
     return "TEXT"
 
 
-def exception_key(e, cause=None):
-    """clause (a): exception type + innermost rope frame + (first wrong region before the failure, if any,
-    else the node class being handled and the token searched for)."""
+def crash_site(e):
+    """(node class being handled, class of the token searched for) from the traceback of a rope exception."""
     node_cls, tok = "?", None
     tb = e.__traceback__
     while tb is not None:
@@ -308,9 +280,109 @@ def exception_key(e, cause=None):
             elif co.co_name in ("consume", "consume_joined_string") and "token" in loc:
                 tok = _tok_class(loc["token"])
         tb = tb.tb_next
-    if cause:
-        return f"a|{core.exc_sig(e)}|after:{cause}"
-    return f"a|{core.exc_sig(e)}|{node_cls}|{tok if tok is not None else '-'}"
+    return node_cls, (tok if tok is not None else "-")
+
+
+class SearchLog:
+    """Monitor on rope's own token search (_Source.consume / _consume_pattern / consume_joined_string): records
+    (what was searched, cursor before, match start, match end).  Used only to name the mechanism behind a
+    clause (a) failure; never a verdict by itself."""
+
+    def __init__(self, patchedast):
+        self.cls = patchedast._Source
+        self.log = []
+
+    def __enter__(self):
+        log = self.log
+        self.saved = {}
+        for name in ("consume", "_consume_pattern", "consume_joined_string"):
+            orig = self.cls.__dict__[name]
+            self.saved[name] = orig
+
+            def wrapper(src_self, what, *a, __orig=orig, __name=name, **kw):
+                before = src_self.offset
+                res = __orig(src_self, what, *a, **kw)
+                f = sys._getframe(1)
+                while f is not None and f.f_code.co_name in ("consume_string", "consume_number", "consume_empty_tuple",
+                                                             "consume_with_or_comma_context_manager", "wrapper"):
+                    f = f.f_back
+                first = f.f_locals.get("first_token", True) if f is not None and f.f_code.co_name == "_handle" else True
+                log.append((__name, what if isinstance(what, str) else None, before, res[0], res[1], first))
+                return res
+            setattr(self.cls, name, wrapper)
+        return self
+
+    def __exit__(self, *exc):
+        for name, orig in self.saved.items():
+            setattr(self.cls, name, orig)
+        return False
+
+
+def first_bad_jump(S, log):
+    """Mechanism of the first token match of rope that is not the match of a real token in reading order:
+    misaligned-match|<NAME|STRING|OTHER> (the match starts or ends inside a token of that kind), entered-bracket
+    (a non-first template token was found inside a bracket opened after the cursor, i.e. in text rope never
+    visited), hash-in-string / crossed-line (the match lies on a later logical line although it is not the first
+    token there; with a '#' inside a string literal in between, which rope takes for a comment).  None if every
+    match looks like a real token."""
+    ts, te, tt, tstr = S._tok[:4]
+    ends = None
+    for name, what, before, m0, m1, first in log:
+        if m1 <= m0:
+            continue
+        i = bisect.bisect_right(ts, m0) - 1
+        if i < 0 or not (ts[i] <= m0 < te[i]):
+            continue
+        if ts[i] != m0:
+            if what == "." and tstr[i] == "...":
+                continue
+            if what == "=" and tt[i] == tokmod.OP and tstr[i].endswith("=") and m1 == te[i] and len(tstr[i]) > 1 \
+                    and tstr[i] not in ("==", "!=", "<=", ">=", ":="):
+                continue  # second half of an augmented-assignment operator, consumed in two steps by design
+            return "misaligned-match|" + _kind3(tt[i])
+        if ends is None:
+            ends = set(te)
+        if m1 not in ends:
+            j = bisect.bisect_right(ts, m1 - 1) - 1
+            if what == "." and tstr[j] == "...":
+                continue
+            if what is not None and tt[j] == tokmod.OP and tstr[j] == what + "=":
+                continue  # first half of an augmented-assignment operator
+            return "misaligned-match|" + _kind3(tt[j])
+        # aligned: did the search leave the logical line, or enter a bracket opened after the cursor?
+        k = bisect.bisect_left(ts, before)
+        crossed = False
+        hash_in_string = False
+        balance = 0
+        for q in range(k, i):
+            if tt[q] == tokmod.NEWLINE:
+                crossed = True
+                break
+            if tt[q] in (tokmod.STRING, tokmod.FSTRING_MIDDLE) and "#" in tstr[q]:
+                hash_in_string = True
+            if tt[q] == tokmod.OP:
+                if tstr[q] in "([{":
+                    balance += 1
+                elif tstr[q] in ")]}":
+                    balance = max(0, balance - 1)
+        if not crossed and not first and what is not None and balance > 0 and name == "consume":
+            return "entered-bracket"
+        if crossed:
+            p = i - 1
+            while p >= 0 and tt[p] in (tokmod.NL, tokmod.COMMENT, tokmod.INDENT, tokmod.DEDENT):
+                p -= 1
+            first_on_line = p < 0 or tt[p] == tokmod.NEWLINE
+            if not first_on_line:
+                return "hash-in-string" if hash_in_string else "crossed-line"
+    return None
+
+
+def _kind3(toktype):
+    if toktype == tokmod.NAME:
+        return "NAME"
+    if toktype in (tokmod.STRING, tokmod.FSTRING_START, tokmod.FSTRING_MIDDLE, tokmod.FSTRING_END):
+        return "STRING"
+    return "OTHER"
 
 
 # --------------------------------------------------------------------------- the oracle
@@ -340,6 +412,20 @@ def _fstring_ranges(S):
     return out
 
 
+def number_feature(tok):
+    """Spelling class of a numeric literal the region cuts through."""
+    t = tok
+    if "_" in t:
+        return "underscore"
+    if len(t) > 1 and t[0] == "0" and t[1] in "bBoOxX":
+        return "0" + t[1]
+    if t[-1] in "jJ":
+        return "imaginary"
+    if "e" in t.lower():
+        return "exponent"
+    return "other"
+
+
 class Judge:
     """Clauses (c) and (d) for one annotated tree."""
 
@@ -350,10 +436,12 @@ class Judge:
         self.n = counters
         self.franges = _fstring_ranges(S)
         self.edges = set()            # (relation, region boundary, span boundary) already reported deeper
+        self.span_bad = {}
+        self.zones = []               # (lo, hi) text already blamed on a lower node
 
     # ---- the interpreter's span of a node, adjusted for the two documented conventions
     def span_of(self, node, parent):
-        S = self.S
+        S, src = self.S, self.src
         ts, te, tt, tstr = S._tok[:4]
         if isinstance(node, HAS_POS) and hasattr(node, "end_lineno"):
             s0, s1 = S.span(node)
@@ -367,11 +455,27 @@ class Judge:
                     j -= 1
                 if j >= 0:
                     s0 = ts[j]
+            while isinstance(node, (ast.stmt, ast.excepthandler)) and s1 > s0 and src[s1 - 1:s1] == ";":
+                # interpreter convention: a compound statement's span takes in the ';' that ends its last
+                # simple statement; the separator is not demanded from the region
+                k = bisect.bisect_left(te, s1)
+                if 0 < k < len(te) and te[k] == s1 and tt[k] == tokmod.OP and tstr[k] == ";" and te[k - 1] > s0:
+                    s1 = te[k - 1]
+                    self.n["semicolon_trimmed_spans"] += 1
+                else:
+                    break
             return s0, s1, True
         spans = [S.span(c) for c in ast.walk(node) if c is not node and hasattr(c, "end_lineno")]
         if not spans:
             return None
-        return min(s[0] for s in spans), max(s[1] for s in spans), False
+        s0, s1 = min(s[0] for s in spans), max(s[1] for s in spans)
+        while s1 > s0 and src[s1 - 1:s1] == ";":
+            k = bisect.bisect_left(te, s1)
+            if 0 < k < len(te) and te[k] == s1 and tstr[k] == ";" and te[k - 1] > s0:
+                s1 = te[k - 1]
+            else:
+                break
+        return s0, s1, False
 
     def span_problems(self, node, parent, region):
         """[(relation, feature, a, b)] - how the region disagrees with the interpreter's span."""
@@ -391,18 +495,25 @@ class Judge:
         out = []
         if s0 != s1 and (r1 <= s0 or r0 >= s1):
             return [("disjoint", "before" if r1 <= s0 else "after", r0, s0)], (s0, s1)
+
+        def mid(i):
+            if tt[i] == tokmod.NUMBER:
+                return "mid-NUMBER:" + number_feature(tstr[i])
+            return "mid-" + _kind3(tt[i])
+
+        def whole(i):
+            return "STRING" if _kind3(tt[i]) == "STRING" else S.tok_feature(i)
         for rel, a, b in (("start-late", s0, r0), ("end-early", r1, s1)):
             if a < b:  # part of the construct is missing from the region
                 idx = [i for i in S.toks_in(a, b) if tt[i] not in _INSIGNIFICANT]
                 if not idx:
                     continue
                 i = idx[0]
-                feat = S.tok_feature(i)
+                feat = whole(i)
                 if rel == "end-early" and ts[i] < a:
-                    feat = "mid-" + tokmod.tok_name[tt[i]] + (":" + _charclass(src[a]) if tt[i] == tokmod.NUMBER else "")
+                    feat = mid(i)
                 elif rel == "start-late" and te[idx[-1]] > b:
-                    j = idx[-1]
-                    feat = "mid-" + tokmod.tok_name[tt[j]] + (":" + _charclass(src[b]) if tt[j] == tokmod.NUMBER else "")
+                    feat = mid(idx[-1])
                 out.append((rel, feat, a, b))
         if exact:
             for rel, a, b, paren in (("extra-left", r0, s0, "("), ("extra-right", s1, r1, ")")):
@@ -411,10 +522,16 @@ class Judge:
                     bad = [i for i in idx if not (tt[i] in _INSIGNIFICANT or (tt[i] == tokmod.OP and tstr[i] == paren))
                            or ts[i] < a or te[i] > b]
                     if bad:
-                        i = bad[-1] if rel == "extra-left" else bad[0]
-                        feat = S.tok_feature(i) if (ts[i] >= a and te[i] <= b) else "mid-" + tokmod.tok_name[tt[i]]
+                        # feature = the token rope took for the boundary of the construct
+                        i = idx[0] if rel == "extra-left" else idx[-1]
+                        feat = tstr[i] if (ts[i] >= a and te[i] <= b and tstr[i] in "()") else "other"
                         out.append((rel, feat, a, b))
         return out, (s0, s1)
+
+    def explained(self, a, b, mark):
+        """some descendant (zones recorded since the node was entered) already carries the blame for [a, b)"""
+        zs = self.zones
+        return any(zs[i][0] <= b + 1 and a - 1 <= zs[i][1] for i in range(mark, len(zs)))
 
     def fctx_for(self, a, b):
         best = None
@@ -423,23 +540,6 @@ class Judge:
                 best = (s, e, o, c)
         return (best[2], best[3]) if best else None
 
-    def first_divergence(self, tree):
-        """Diagnosis for clause (a): first completed node (document order) whose region disagrees with its span."""
-        best = None
-        stack = [(tree, None, False)]
-        while stack:
-            node, parent, infs = stack.pop()
-            region = getattr(node, "region", None)
-            infs = infs or isinstance(node, ast.JoinedStr)
-            if region is not None and not isinstance(node, ast.Module):
-                probs, sp = self.span_problems(node, parent, region)
-                if probs and (best is None or sp[0] < best[0]):
-                    rel, feat = probs[0][0], probs[0][1]
-                    best = (sp[0], f"{cls_name(node)}{'@fstring' if infs else ''}/{rel}/{feat}")
-            for c in ast.iter_child_nodes(node):
-                stack.append((c, node, infs))
-        return best[1] if best else None
-
     def walk(self, tree):
         S, src, n = self.S, self.src, self.n
         shapes, types_seen = set(), set()
@@ -447,13 +547,15 @@ class Judge:
         nevals = 0
         stack = [(tree, None, None, None, False, False)]
         bad_below = {}
+        marks = {}
         while stack:
             node, parent, field, anc, infs, done = stack.pop()
             region = getattr(node, "region", None)
             if not done:
                 types_seen.add(node.__class__.__name__)
+                marks[id(node)] = len(self.zones)
                 stack.append((node, parent, field, anc, infs, True))
-                nanc = node if region is not None else anc
+                nanc = node if region is not None and isinstance(region[0], int) and isinstance(region[1], int) else anc
                 ninfs = infs or isinstance(node, ast.JoinedStr)
                 for f, val in ast.iter_fields(node):
                     if isinstance(val, ast.AST):
@@ -480,16 +582,24 @@ class Judge:
                                     f"{_category(node)} node in {pname}.{field} has a position in the interpreter's tree "
                                     f"but was given no region", text=src[s0:s1][:120], context=_ctx(src, s0, s1))
                         n["nodes_without_region"] += 1
+                        self.zones.append((s0, s1))
                         below = True
                 bad_below[id(node)] = below
                 continue
             r0, r1 = region
-            if anc is not None:  # (c)
+            if not (isinstance(r0, int) and isinstance(r1, int)):
+                nevals += 1
+                self.report("d|region-not-offsets", f"region of {cname} is {region!r}, not a pair of "
+                            f"offsets", context=_ctx(src, *S.span(node)) if has_pos else None)
+                node.region = None  # so that descendants are judged against the next annotated ancestor
+                bad_below[id(node)] = True
+                continue
+            if anc is not None and getattr(anc, "region", None) is not None:  # (c)
                 nevals += 1
                 n["containment_pairs"] += 1
                 a0, a1 = anc.region
                 if not (a0 <= r0 <= r1 <= a1):
-                    self.report(f"c|{cname}|{cls_name(anc)}|{'before' if r0 < a0 else ''}{'after' if r1 > a1 else ''}",
+                    self.report(f"c|{'before' if r0 < a0 else ''}{'after' if r1 > a1 else ''}",
                                 f"region of {cname} is not inside the region of its ancestor {cls_name(anc)}",
                                 region=[r0, r1], ancestor=[a0, a1], text=src[r0:r1][:120], context=_ctx(src, a0, a1))
             if isinstance(node, ast.Module):
@@ -506,13 +616,33 @@ class Judge:
                     n["span_mismatch_propagated"] += 1
                     continue
                 self.edges.add((rel, a, b))
+                # the boundary of this region is the boundary of a child's region that is itself wrong:
+                # a consequence, reported once at the child
+                side = {"start-late": 0, "extra-left": 0, "end-early": 1, "extra-right": 1}.get(rel)
+                if side is not None and any(self.span_bad.get(id(c)) and c.region[side] == region[side]
+                                            for c in ast.iter_child_nodes(node) if getattr(c, "region", None)):
+                    n["span_mismatch_propagated"] += 1
+                    continue
+                if rel != "disjoint" and self.explained(a, b, marks.get(id(node), 0)):  # the text in question is already blamed on a lower node
+                    n["span_mismatch_propagated"] += 1
+                    continue
                 what = {"disjoint": "does not overlap the interpreter's span",
                         "start-late": f"leaves out the beginning of the construct (first missing token {feat!r})",
                         "end-early": f"leaves out the end of the construct (first missing token {feat!r})",
-                        "extra-left": f"starts with text that is not part of the construct ({feat!r})",
-                        "extra-right": f"ends with text that is not part of the construct ({feat!r})"}[rel]
-                self.report(f"d|{cname}|{rel}|{feat}", f"region of {cname} {what}", region_text=src[r0:r1][:160],
+                        "extra-left": f"starts with text that is not part of the construct (region starts at {feat!r})",
+                        "extra-right": f"ends with text that is not part of the construct (region ends with {feat!r})"}[rel]
+                if rel in ("start-late", "end-early"):
+                    # a parenthesis left out is the paren attribution shared by all node classes: keyed by category
+                    key = f"d|{_category(node) if feat in ('(', ')') else cls_name(node)}|{rel}|{feat}"
+                elif infs:  # inside an f-string: rope matches expression text against the literal parts as well
+                    key = f"d|{rel}@fstring"
+                else:
+                    key = f"d|{rel}|{feat}"
+                self.report(key, f"region of {cname} {what}", region_text=src[r0:r1][:160],
                             span_text=src[sp[0]:sp[1]][:160], context=_ctx(src, min(r0, sp[0]), max(r1, sp[1])))
+            if span_bad:
+                self.span_bad[id(node)] = True
+                self.zones.append((min(r0, sp[0]), max(r1, sp[1])))
             # layout shape
             flags = []
             if S.count_in(S.starts, r0 + 1, r1 + 1):
@@ -532,7 +662,8 @@ class Judge:
             else:
                 ls = S.starts[bisect.bisect_right(S.starts, r0) - 1]
                 prefix = src[ls:r0]
-                prefix = prefix if prefix and not prefix.strip(" \t\x0c") else ""
+                prefix = prefix.rpartition("\x0c")[2]  # a form feed resets the indentation column
+                prefix = prefix if prefix and not prefix.strip(" \t") else ""
                 text = src[r0:r1]
                 fctx = self.fctx_for(r0, r1) if isinstance(node, ast.FormattedValue) else None
                 d = None
@@ -553,7 +684,7 @@ class Judge:
                     if below:
                         n["reparse_propagated"] += 1
                     else:
-                        self.report(f"d|{cname}|reparse|{d.lstrip('.')}",
+                        self.report(f"d|{cls_name(node)}|reparse|{d.lstrip('.')}",
                                     f"region text of {cname} does not re-parse to the same node ({d.lstrip('.')})",
                                     region_text=text[:200], context=_ctx(src, r0, r1))
                     below = True
@@ -561,8 +692,57 @@ class Judge:
         return nevals, shapes, types_seen
 
 
+_SEARCH_FAILED = ("MismatchedTokenError", "AttributeError", "ValueError")
+
+
+def split_chunks(src):
+    """Smaller valid modules cut from `src`: its top-level statements, or - for a single definition - the header
+    plus one body statement each.  None if `src` cannot be split into >= 2 compilable chunks."""
+    try:
+        tree = ast.parse(src)
+    except (SyntaxError, ValueError, RecursionError):
+        return None
+    lines = src.split("\n")
+
+    def first_line(st):
+        return min([st.lineno] + [d.lineno for d in getattr(st, "decorator_list", [])])
+
+    def groups(body):
+        out = []
+        for st in body:
+            a, b = first_line(st), st.end_lineno
+            if out and a <= out[-1][1]:
+                out[-1][1] = max(out[-1][1], b)
+            else:
+                out.append([a, b])
+        return out
+
+    gs = groups(tree.body)
+    if len(gs) >= 2:
+        chunks = ["\n".join(lines[a - 1:b]) + "\n" for a, b in gs]
+    elif len(tree.body) == 1 and isinstance(tree.body[0], _DEFS) and len(tree.body[0].body) >= 2:
+        d = tree.body[0]
+        h0, h1 = first_line(d), first_line(d.body[0])
+        if h1 <= d.lineno:
+            return None
+        header = "\n".join(lines[h0 - 1:h1 - 1]) + "\n"
+        gs = groups(d.body)
+        if len(gs) < 2:
+            return None
+        chunks = [header + "\n".join(lines[a - 1:b]) + "\n" for a, b in gs]
+    else:
+        return None
+    if not all(corpus.compiles(c) for c in chunks):
+        return None
+    return chunks
+
+
 def check_source(src, res, origin, vio_limit=40):
-    """Runs clauses a-d on one source text.  Returns number of violations recorded."""
+    """Runs clauses a-d on one source text.  Returns the number of violations observed."""
+    return _check(src, res, origin, vio_limit, 0)[0]
+
+
+def _check(src, res, origin, vio_limit, level):
     import collections
     from rope.base import ast as rope_ast
     from rope.refactor import patchedast
@@ -581,7 +761,7 @@ def check_source(src, res, origin, vio_limit=40):
     S = Src(src)
     if S.tokens() is False:
         res.ev("untokenizable_sources")
-        return 0
+        return 0, False
     # ---- clause (a)
     res.evals()
     with warnings.catch_warnings(record=True) as wlist:
@@ -590,22 +770,43 @@ def check_source(src, res, origin, vio_limit=40):
             tree = patchedast.get_patched_ast(src, True)
         except RecursionError:
             res.ev("recursion_limit_sources")
-            return 0
+            return 0, False
         except Exception as e:  # any exception on a valid module refutes (a)
             res.ev("a_raised")
+            # isolate: the failure is reported on the smallest chunk (a valid module itself) that still fails,
+            # and the chunks that do not fail get their clauses (b)-(d) judged instead of being hidden
+            chunks = split_chunks(src) if level < 3 else None
+            if chunks:
+                total, any_crash = 0, False
+                for ch in chunks:
+                    o = dict(origin, isolated_chunk=level + 1)
+                    if len(ch) <= 3000:
+                        o["source"] = ch
+                    n, crashed = _check(ch, res, o, vio_limit, level + 1)
+                    res.ev("isolated_chunks")
+                    total += n
+                    any_crash = any_crash or crashed
+                if any_crash:
+                    return total + 1, True
+                nvio[0] += total
             cause = None
-            try:  # diagnosis only: same call in two steps, keeping the partially annotated tree
-                partial = rope_ast.parse(src)
-                try:
-                    patchedast.patch_ast(partial, src, True)
-                except Exception:
-                    cause = Judge(S, report, counters).first_divergence(partial)
+            try:  # diagnosis only: the same call in two steps with a monitor on rope's token search
+                with SearchLog(patchedast) as probe:
+                    try:
+                        patchedast.patch_ast(rope_ast.parse(src), src, True)
+                    except Exception:
+                        pass
+                cause = first_bad_jump(S, probe.log)
             except Exception:
                 cause = None
-            report(exception_key(e, cause), f"get_patched_ast raised {type(e).__name__}: {str(e)[:120]}"
-                   + (f"; first wrong region before the failure: {cause}" if cause else ""),
-                   excerpt=_excerpt_exc(src, e))
-            return nvio[0]
+            site = crash_site(e)
+            exc = type(e).__name__
+            key = "a|" + ("" if exc in _SEARCH_FAILED else exc + "|") + (cause or "direct")
+            report(key, f"get_patched_ast raised {core.exc_sig(e)}: {str(e)[:120]} while handling {site[0]} "
+                   f"(searching {site[1]!r}); first suspicious token match: {cause}", excerpt=_excerpt_exc(src, e),
+                   source=src if len(src) <= 3000 else None)
+            res.ev("a_reported")
+            return nvio[0], True
     for w in wlist:
         if "please report" in str(w.message):
             res.ev("rope_warnings")
@@ -616,12 +817,14 @@ def check_source(src, res, origin, vio_limit=40):
     try:
         back = patchedast.write_ast(tree)
     except Exception as e:
-        report(f"b|{core.exc_sig(e)}", f"write_ast raised {type(e).__name__}: {str(e)[:120]}")
+        report(f"b|{type(e).__name__}", f"write_ast raised {type(e).__name__}: {str(e)[:120]}")
         back = None
     if back is not None and back != src:
         k = next((i for i, (x, y) in enumerate(zip(back, src)) if x != y), min(len(back), len(src)))
-        cls, feat = _lossy_node(tree, src, patchedast, S, k)
-        report(f"b|{cls}|{feat}", "write_ast(patched tree) differs from the source",
+        cat = _lossy_node(tree, src, patchedast)
+        how = "longer" if len(back) > len(src) else "shorter" if len(back) < len(src) else "same-length"
+        report(f"b|{how}", f"write_ast(patched tree) differs from the source ({how}; lowest node whose written "
+               f"form differs from its region text: {cat})",
                at=k, src=src[max(0, k - 40):k + 40], got=back[max(0, k - 40):k + 40])
     elif back is not None:
         res.ev("b_lossless")
@@ -634,17 +837,9 @@ def check_source(src, res, origin, vio_limit=40):
             res.ev(k, v)
     for t in types_seen:
         res.ev("nt." + t)
-    for s in shapes:
-        res.shape(s)
-    return nvio[0]
-
-
-def _charclass(c):
-    if c.isdigit():
-        return "digit"
-    if c in "_.bBoOxXeEjJ+-":
-        return c
-    return "other"
+    for sh in shapes:
+        res.shape(sh)
+    return nvio[0], False
 
 
 def _ctx(src, a, b, pad=30):
@@ -660,8 +855,8 @@ def _excerpt_exc(src, e):
     return "\n".join(lines[max(0, ln - 3):ln + 1])[:400]
 
 
-def _lossy_node(tree, src, patchedast, S, k):
-    """Lowest node whose written form differs from the text of its region; feature = token kind at the difference."""
+def _lossy_node(tree, src, patchedast):
+    """Category of the lowest node whose written form differs from the text of its region."""
     best = tree
     changed = True
     while changed:
@@ -676,47 +871,96 @@ def _lossy_node(tree, src, patchedast, S, k):
             if w != src[c.region[0]:c.region[1]]:
                 best, changed = c, True
                 break
-    idx = S.toks_in(k, k + 1)
-    feat = S.tok_feature(idx[0]) if idx else "whitespace"
-    return cls_name(best), feat
+    return _category(best)
+
+
+# --------------------------------------------------------------------------- fixed witnesses
+# One small valid module per construct family that the pinned tree is known to get wrong or that a mutant is
+# likely to break; run on every tier so that the set of reachable signature keys does not depend on the seed.
+WITNESSES = [
+    "x = 1_000\ny = 0b101\nz = 0B1\no = 0O17\nh = 0XFF\nf = 1_0.0\nc = 1_0j\nok = 0x1f + 0o7 + 1e5 + 2.5j + .5 + 5.\n",
+    "f(*args)\na = [*b, c]\n*d, e = c\nf(*(a or b))\ng(**kw)\ng(**(a or b))\nh = {**a, 'b': 1}\n",
+    "x = a,\ny = a, b,\nz = (a,)\nw = ()\nfor i in a,: pass\n",
+    "x = a,\nwith b:\n    pass\n",
+    "def f(a: int, b: str = 'x') -> None:\n    pass\n",
+    "def f(a, /, b, *args, c=1, **kw):\n    pass\n",
+    "def f(ab, /, b):\n    pass\n",
+    "g = lambda *a, k=1, **kw: a\nh = lambda x, /, y=2: x\n",
+    "def f(*, d=('#', ';')):\n    pass\n",
+    "def f(a, *, k=(1, 2), m=3):\n    return a\n",
+    "def f(a: Tuple[int, str], b):\n    pass\n",
+    "x = (f\"a{b}\"\n     f\"c{d}\")\ny = (\"a\"\n     f\"{b}\")\nz = ('a'\n     'b')\nw = 'a' 'b' \"c\"\nv = b'a' b'b'\n",
+    "x = f\"{{a}} {b}\"\ny = f\"b {b}\"\nz = f\"{a}}}\"\n",
+    "x = f\"{f'{a}'}\"\ny = f\"{a:>{w}}\"\nz = f\"{a!r:^10}\"\nw = f\"{a=}\"\nv = f'{d[\"k\"]}' f\"{d['k']}\"\nu = rf'{a}\\d'\n",
+    "x = f'''{\n    a\n}'''\ny = f\"{a  # comment\n}\"\n",
+    "class A(B, metaclass=M):\n    pass\nclass C(*bases, **kw):\n    pass\n",
+    "class A[T]:\n    pass\ndef f[T: int, *Ts, **P](x: T) -> T:\n    return x\ntype X[T] = list[T]\ntype Y = int\n",
+    "try:\n    a\nexcept E:\n    b\nelse:\n    c\nfinally:\n    d\n",
+    "try:\n    a\nexcept (E, F) as e:\n    b\nexcept:\n    c\n",
+    "try:\n    a\nexcept* E:\n    b\n",
+    "async def f():\n    r = [x async for x in y]\n    async with a as b, c:\n        await b\n    async for i in r:\n        yield i\n",
+    "def g():\n    (yield)\n    x = yield\n    y = yield from x\n    return *x, y\n",
+    "(a + b)\n(a).b\n((a))\n(a)(b)\n",
+    "with a as b, \\\n     c as d:\n    pass\nwith (a as b,\n      c as d):\n    pass\nwith (a, b):\n    pass\n",
+    "x = a[1::]\ny = a[::2, 1:2]\nz = a[*b]\nw = a[(1, 2)]\nv = a[...]\n",
+    "match x:\n    case (a, b):\n        pass\n",
+    "match x:\n    case [1, *rest] if rest:\n        pass\n    case {'k': v, **kw}:\n        pass\n"
+    "    case Point(x=0, y=0) | None:\n        pass\n    case str() as s:\n        pass\n    case -1 | 1+2j:\n        pass\n"
+    "    case m.K:\n        pass\n    case _:\n        pass\n",
+    "\ufb01 = 1\nx = \ufb01 + fi\n",
+    "\u00e9 = '\u00fc'  # \u00f1\n\u540d\u524d = \u00e9 . real\n",
+    "if a:\n    pass\nelif b:\n    pass\nelif c:\n    pass\nelse:\n    pass\n",
+    "@a.b(c)\n@d\ndef f(): pass\n@e\nclass C: pass\n",
+    "x = (\n    1  # one (\n)\ny = [  # ) ]\n    2,\n]\nz = {  # for x in y\n    'k': 3}\n",
+    "x = [a  # for b\n     for a in c  # if d\n     if a]\n",
+    "global a, b\ndef f():\n    v = 1\n    def g():\n        nonlocal v\n        v = 2\n",
+    "if (n := len(a)) > 1: pass\nwhile x: break\nfor i in y: continue\nelse: pass\n",
+    "from . import a\nfrom .. b import (c as d,\n    e)\nfrom ... import f\nimport a.b.c as d, e\nfrom m import *\n",
+    "x: int = 1\n(y): int\na.b: str = 's'\nc[0]: int\nx += 1\nx @= y\nx >>= 2\nx //= 3\nx **= 4\n",
+    "raise E from e\n",
+    "assert a, b\ndel a, (b), c[0], d.e\n",
+    "x = a if b else c\ny = not a\nz = a is not b\nw = a not in b\nv = -a ** ~b\nu = a < b <= c != d\nt = a and b or c\n",
+    "a = 1; b = 2;\nif a: c = 3; d = 4;\n",
+    "a = 1\r\nb = (2,\r\n     3)\r\n",
+    "if a:\n\tb = 1\n\tif c:\n\t\td = 2\n\x0ce = 3\n",
+    "x = 1 + \\\n    2\ny = a \\\n    .b\nassert x, \\\n    y\n",
+    "x = 'it''s' \"q\\\"q\" '''t\n'''\ny = r'\\d' R\"\\s\" u'u'\nyb = br'x' Rb\"y\"\nz = 'hash # inside'; w = \"paren ( inside\"  # real ' \"\n",
+    "print(a, end='')\nf(x for x in y)\nf((x for x in y), z)\nf(a)(b)[c].d\n",
+    "x = {1, 2}\ny = {k: v for k, v in z}\nw = {i for i in j if i}\nv = (i for i in j)\nu = [i for i in j for k in i if k]\n",
+    "class A:\n    'doc'\n    x: int = 1\n    def m(self): return super().m()[1:2, ::3].a\n",
+    "def h():\n    '''Doc.\n\n    for x in y: not code\n    '''\n    return 1\n",
+    "lambda: (yield)\nx = lambda: 0\ny = (lambda a, b=1: a)(2)\n",
+]
 
 
 # --------------------------------------------------------------------------- workload
-def _corpus_list():
-    """All corpus files (paths), deterministic order."""
-    if _corpus is not None and hasattr(_corpus, "all_files"):
-        return list(_corpus.all_files())
-    std, rp, rt = _roots()
-    return _list_py(std) + _list_py(rp) + _list_py(rt)
-
-
 def cases(tier, seed):
     import random
     rnd = random.Random(f"{seed}/C08/cases")
-    std, rp, rt = _roots()
-    rope_files = _list_py(rp)
-    other = _list_py(std) + _list_py(rt)
-    rnd.shuffle(other)
+    rope_files = corpus.paths(("rope",))
+    other = corpus.select(f"{seed}/C08", None, roots=("stdlib", "ropetest"))
     if tier == "quick":
         files = rope_files + other[:200]
-        nvar, ngen, per_gen = 1, 64, 12
+        knobs = {"whole": 1, "snips": 3, "nmut": 10}
+        ngen, per_gen = 64, 8
     else:
         files = rope_files + other
-        nvar, ngen, per_gen = 6, 1500, 15
-    # interleave: generated programs first (cheap, guarantee node-class coverage), then files big-first
+        knobs = {"whole": 2, "snips": 6, "nmut": 12}
+        ngen, per_gen = 800, 10
+    # generated programs first (cheap; they guarantee node-class coverage), then the files, big ones first
     for i in range(min(ngen, 32)):
         yield {"kind": "gen", "seed": f"{seed}/C08/gen/{i}", "n": per_gen}
-    sized = sorted(files, key=lambda p: -os.path.getsize(p))
+    yield {"kind": "seeds", "seed": f"{seed}/C08/seeds", "n": 6 if tier == "quick" else 40}
+    sized = sorted(files, key=lambda p: (-os.path.getsize(p), p))
     for i, p in enumerate(sized):
-        yield {"kind": "file", "path": p, "variants": nvar, "seed": f"{seed}/C08/file/{i}"}
+        yield dict(knobs, kind="file", path=p, seed=f"{seed}/C08/file/{i}")
     for i in range(32, ngen):
         yield {"kind": "gen", "seed": f"{seed}/C08/gen/{i}", "n": per_gen}
-    # more variants of random corpus files until the budget ends (thorough only)
-    if tier == "thorough":
+    if tier == "thorough":  # more variants of random corpus files until the budget ends
         i = 0
         while True:
-            yield {"kind": "file", "path": rnd.choice(files), "variants": 4, "only_variants": True,
-                   "seed": f"{seed}/C08/more/{i}"}
+            yield {"kind": "file", "path": rnd.choice(files), "whole": 1, "snips": 8, "nmut": rnd.choice([6, 12, 20]),
+                   "only_variants": True, "seed": f"{seed}/C08/more/{i}"}
             i += 1
 
 
@@ -724,79 +968,92 @@ def setup_worker():
     sys.setrecursionlimit(3000)
 
 
-def _variants(src, rnd, n):
-    if _layoutfuzz is not None and hasattr(_layoutfuzz, "mutate"):
-        out = []
-        for _ in range(n):
-            try:
-                v = _layoutfuzz.mutate(src, rnd)
-            except Exception:
-                v = None
-            if v and v != src:
-                out.append(v)
-        return out
-    from vlib import astgen
-    return [v for v in (astgen.simple_layout_variant(src, rnd) for _ in range(n)) if v and v != src]
-
-
-def _valid(src):
+def _mutated(text, rnd, nmut):
     try:
-        compile(src, "<c08>", "exec", dont_inherit=True)
-        return True
-    except (SyntaxError, ValueError, RecursionError, MemoryError, OverflowError):
-        return False
+        m = layoutfuzz.mutate_ex(text, rnd, n_mutations=nmut, crlf=rnd.random() < 0.1)
+    except (RecursionError, MemoryError):
+        return None
+    if m is None or m.text == text:
+        return None
+    return m
+
+
+def _check_variant(res, base, rnd, nmut, origin):
+    m = _mutated(base, rnd, nmut)
+    if m is None:
+        res.ev("variants_not_produced")
+        return 0
+    res.ev("variant_sources")
+    for tag in set(m.applied):
+        res.ev("mut." + tag)
+    o = dict(origin, mutations=m.applied)
+    if len(m.text) <= 3000:
+        o["source"] = m.text
+    return check_source(m.text, res, o)
 
 
 def run_case(spec):
-    from vlib import astgen
     res = core.Result()
     rnd = core.rng(spec)
+    total = 0
     with warnings.catch_warnings():
         warnings.simplefilter("ignore")
         if spec["kind"] == "file":
-            src = read_source(spec["path"])
-            if src is None or not _valid(src):
+            src = corpus.load(spec["path"])
+            if src is None:
                 res.ev("corpus_skipped_uncompilable")
                 res.outcome("skipped")
-                res.evals(0)
                 return res
-            total = 0
+            rel = _rel(spec["path"])
             if not spec.get("only_variants"):
                 res.ev("corpus_sources")
-                total += check_source(src, res, {"file": _rel(spec["path"])})
-            for j, v in enumerate(_variants(src, rnd, spec["variants"])):
-                if not _valid(v):
-                    res.ev("variants_discarded_invalid")
+                total += check_source(src, res, {"file": rel})
+            if len(src) <= 60_000:
+                for j in range(spec["whole"]):
+                    total += _check_variant(res, src, rnd, spec["nmut"] + len(src) // 4000, {"file": rel, "variant": j})
+            for j in range(spec["snips"]):
+                sn = corpus.snippet(src, rnd, 3, 60)
+                if sn is None:
                     continue
-                res.ev("variant_sources")
-                total += check_source(v, res, {"file": _rel(spec["path"]), "variant": j})
-            res.outcome("violating-source" if total else "exact")
-            res.sample({"kind": "file", "path": _rel(spec["path"]), "chars": len(src), "violations": total})
+                total += _check_variant(res, sn, rnd, spec["nmut"], {"file": rel, "snippet_variant": j})
+            res.sample({"kind": "file", "path": rel, "chars": len(src), "violations": total})
+        elif spec["kind"] == "seeds":
+            for k, sn in enumerate(WITNESSES):
+                if corpus.compiles(sn):
+                    res.ev("witness_sources")
+                    total += check_source(sn, res, {"witness": k, "source": sn})
+                else:
+                    res.ev("witness_invalid")
+            for j in range(spec["n"]):
+                for k, sn in enumerate(layoutfuzz.SEED_SNIPPETS):
+                    if j == 0:
+                        res.ev("seed_sources")
+                        total += check_source(sn, res, {"seed_snippet": k, "source": sn})
+                    total += _check_variant(res, sn, rnd, 12, {"seed_snippet": k, "variant": j})
+            res.sample({"kind": "seeds", "snippets": len(layoutfuzz.SEED_SNIPPETS), "violations": total})
         else:
-            total = 0
             first = None
             for j in range(spec["n"]):
-                src = astgen.random_module_source(rnd)
-                if not _valid(src):
-                    res.ev("generated_discarded_invalid")
-                    continue
+                src = astgen.coverage_module_source(rnd) if j == 0 else astgen.random_module_source(rnd)
+                if not corpus.compiles(src):
+                    res.ev("generated_repaired")
+                    src = astgen.valid_statements_source(src)
+                    if src is None or not corpus.compiles(src):
+                        res.ev("generated_discarded_invalid")
+                        continue
                 first = first or src
                 res.ev("generated_sources")
-                total += check_source(src, res, {"generated": spec["seed"], "index": j, "source": src[:1500]})
-                for v in _variants(src, rnd, 1):
-                    if _valid(v):
-                        res.ev("variant_sources")
-                        total += check_source(v, res, {"generated": spec["seed"], "index": j, "variant": 0,
-                                                       "source": v[:1500]})
-            res.outcome("violating-source" if total else "exact")
+                total += check_source(src, res, {"generated": spec["seed"], "index": j, "source": src[:3000]})
+                total += _check_variant(res, src, rnd, 10, {"generated": spec["seed"], "index": j})
             res.sample({"kind": "generated", "seed": spec["seed"], "first_program": (first or "")[:600],
                         "violations": total})
+    res.outcome("violating-source" if total else "exact")
     return res
 
 
 def _rel(path):
-    std, rp, rt = _roots()
-    for name, root in (("stdlib", std), ("rope", os.path.dirname(rp))):
+    for name in ("stdlib", "rope", "ropetest"):
+        root = corpus.root_dir(name)
         if path.startswith(root + os.sep):
             return name + ":" + path[len(root) + 1:]
     return path
@@ -805,11 +1062,11 @@ def _rel(path):
 def finalize(agg):
     ev = agg["events"]
     seen = {k[3:]: ev.pop(k) for k in list(ev) if k.startswith("nt.")}
-    from vlib import astgen
+    muts = {k[4:]: ev.pop(k) for k in list(ev) if k.startswith("mut.")}
     want = astgen.reachable_node_classes()
     missing = sorted(set(want) - set(seen))
     out = {"node_types_seen": dict(sorted(seen.items())), "node_types_missing": missing,
-           "node_types_total": len(want)}
+           "node_types_total": len(want), "mutation_kinds_applied": dict(sorted(muts.items()))}
     if missing:
         out["inconclusive"] = "node classes never produced by the workload: " + ", ".join(missing)
     return out
